@@ -36,7 +36,7 @@ theorem C13_rollback (qs : List MQuery) (hd : ∀ q ∈ qs, q.distinctKeys) (s :
       refine Safe.bind (safe_run q ?_) (fun _ => ih (fun q' hq' => h q' (List.mem_cons_of_mem _ hq')))
       have := h q (by simp)
       cases q <;> first | exact this | trivial
-  obtain ⟨r, hr, hra, hri, hru⟩ := rollback_of_fwd s _ hu hi (hsafe qs hd s hi)
+  obtain ⟨r, hr, hra, hri, hru, _⟩ := rollback_of_fwd s _ hu hi (hsafe qs hd s hi)
   exact ⟨r, hr, obsEq_of_abs hri.sinv hi.sinv hra, hri, hru, fun n => congrFun (congrArg ADb.alloc hra) n⟩
 
 /-- A single mutating query that fails part-way (`exec_mut` = one-query transaction). -/
